@@ -56,6 +56,9 @@ fn main() {
     let args: Vec<String> = std::env::args().collect();
     let want_tags = args.iter().any(|a| a == "--tags");
     let flush = args.iter().any(|a| a == "--flush");
+    if args.iter().any(|a| a == "--spare") {
+        wire::SPARE.store(true, core::sync::atomic::Ordering::Relaxed);
+    }
     let stdin = std::io::stdin();
     let stdout = std::io::stdout();
     let mut out = std::io::BufWriter::new(stdout.lock());
